@@ -171,6 +171,39 @@ def run_history(ctx: Ctx, mats, m, k, hist, max_norm, proportional=frozenset()):
     return True
 
 
+def mixed_precision_window(ctx: Ctx):
+    """matrices of the two floating dtypes inside ONE reuse window: every call succeeds and the reused weights are the weights
+    of the last scheduled update, handed back in the dtype of the matrix of the call (so their single-precision roundings agree)"""
+    rng = ctx.rng
+    m = rng.choice([2, 3])
+    k = rng.choice([2, 3, 4])
+    mats = alphabet(rng, m, 2)
+    mx = rng.choice([0.0, 1.0, 50.0])
+    A = NashMTL(n_tasks=m, max_norm=mx, update_weights_every=k, optim_niter=20)
+    hist = []
+    ref = None
+    for ci in range(rng.randint(k, 2 * k + 1)):
+        dt = rng.choice([torch.float32, torch.float64])
+        J = mats[rng.randrange(2)].to(dt)
+        hist.append([ci, str(dt)])
+        rp = {"scenario": "two dtypes in one reuse window", "n_tasks": m, "update_weights_every": k, "max_norm": mx, "calls": hist,
+              "matrices": [M.tolist() for M in mats]}
+        st, w = call(A, J)
+        ctx.count("mixed_precision_calls")
+        if st != "ok":
+            ctx.violation(f"NashMTL(update_weights_every={k}) call #{ci} on a {dt} matrix raised {w} (earlier calls: {hist[:-1]})", rp)
+            return
+        if w.dtype != dt:
+            ctx.violation(f"call #{ci} on a {dt} matrix returned weights of dtype {w.dtype}", rp)
+            return
+        if ci % k == 0:
+            ref = w
+        elif mx == 0.0 and not torch.allclose(w.float(), ref.float(), rtol=1e-6, atol=0):
+            ctx.violation(f"call #{ci} (inside the reuse window) returned {w.tolist()}, the weights of the last update are {ref.tolist()}", rp)
+            return
+    ctx.case(("mixed-window", m, k, mx, str(hist)), nontrivial=True)
+
+
 def main(ctx: Ctx):
     ctx.lean_gate()
     rng = ctx.rng
@@ -190,6 +223,8 @@ def main(ctx: Ctx):
                          sample={"n_tasks": m, "update_weights_every": k, "history": list(h), "max_norm": mx})
                 if not ok:
                     break
+    for _ in range(6 if quick else 150):
+        mixed_precision_window(ctx)
     # alphabets with PROPORTIONAL matrices (J, cJ): same normalised Gramian, different bargaining solution (alpha / c)
     for m in (2, 3):
         for rep_ in range(2 if quick else 6):
